@@ -52,7 +52,15 @@ func runSeed(seed uint64, idx int) uint64 { return sim.Mix(seed, sim.MixString("
 
 // oneRun executes run idx; it returns a description of an oracle failure ("" if none) and the
 // number of operations released in parallel.
-func oneRun(seed uint64, idx int, log bool) (string, string, int, uint64) {
+func oneRun(seed uint64, idx int, log bool) (sig string, msg string, nops int, shapeH uint64) {
+	// a panic of the library (in the sequential set-up or in a released goroutine) is a violation of
+	// C01 in its own right ("each call returns what an ideal sorted map returns"), not tooling trouble
+	defer func() {
+		if p := recover(); p != nil {
+			sig, msg = "race/panic", fmt.Sprintf("the library panicked: %v", p)
+		}
+	}()
+	var gpanic atomicString
 	t := sim.NewGenTape(runSeed(seed, idx))
 	nkeys := []int{40, 5, 16, 17, 130, 300, 700}[t.Choose(7, "nkeys")]
 	useCmp := t.Choose(2, "cmp") == 1
@@ -160,6 +168,11 @@ func oneRun(seed uint64, idx int, log bool) (string, string, int, uint64) {
 		wg.Add(1)
 		go func() {
 			defer wg.Done()
+			defer func() {
+				if p := recover(); p != nil {
+					gpanic.set(fmt.Sprint(p))
+				}
+			}()
 			<-start
 			mm := copies[i]
 			for _, o := range plans[i] {
@@ -176,6 +189,9 @@ func oneRun(seed uint64, idx int, log bool) (string, string, int, uint64) {
 	}
 	close(start)
 	wg.Wait()
+	if p := gpanic.get(); p != "" {
+		return "race/panic", "a released goroutine panicked inside the library: " + p, ops, 0
+	}
 	for k, v := range written {
 		model[k] = v
 	}
@@ -198,6 +214,14 @@ func oneRun(seed uint64, idx int, log bool) (string, string, int, uint64) {
 	}
 	return "", "", ops, shape
 }
+
+type atomicString struct {
+	mu sync.Mutex
+	s  string
+}
+
+func (a *atomicString) set(s string) { a.mu.Lock(); a.s = s; a.mu.Unlock() }
+func (a *atomicString) get() string  { a.mu.Lock(); defer a.mu.Unlock(); return a.s }
 
 func TestRace(t *testing.T) {
 	code := 0
